@@ -685,6 +685,45 @@ pub fn prop(tier: Tier, seed: u64) -> Prop {
         .isolated(),
     );
 
+    // (3b) the ladder alphabet (growing scratch-buffer sizes within a factor of two, reset, clone), deeper
+    let lad = c09::ladder_alphabet();
+    let ldepth: usize = tier.pick(3, 4);
+    let nl = lad.len() as u64;
+    let l3 = lad.clone();
+    p.spaces.push(
+        Space::new("histories: the scratch-buffer size ladders (three growing sizes within a factor of two, reset, clone) to a greater depth, fenced", nl * nl, move |idx, ctx| {
+            let (a, b) = ((idx / nl) as usize, (idx % nl) as usize);
+            ctx.sample(|| json!({"first_actions": [format!("{:?}", l3[a]), format!("{:?}", l3[b])], "then": format!("all sequences of {} more ladder actions", ldepth - 2)}));
+            if ctx.describe_only {
+                return;
+            }
+            fn rec(ctx: &mut Ctx, acts: &[c09::Act], path: &mut Vec<u16>, depth: usize) {
+                let Some((mut rz, mut be)) = fenced(|| c09::rebuild(acts, &path[..path.len() - 1])) else { return };
+                let last = *path.last().unwrap() as usize;
+                let (viols, oh) = fenced(|| c09::step_live(&mut rz, &mut be, acts[last], last, (path.len() - 1) as u8));
+                ctx.ops += 1;
+                for (sig, d) in viols {
+                    let pth = path.clone();
+                    ctx.violation(sig.replacen("C09|", "C03|history|", 1), || json!({"alphabet": "ladder", "path": pth, "actions": pth.iter().map(|i| format!("{:?}", acts[*i as usize])).collect::<Vec<_>>(), "more": d}));
+                }
+                ctx.outcome(oh);
+                drop(rz);
+                if path.len() < depth {
+                    for n in 0..acts.len() {
+                        path.push(n as u16);
+                        rec(ctx, acts, path, depth);
+                        path.pop();
+                    }
+                }
+            }
+            let mut path = vec![a as u16, b as u16];
+            rec(ctx, &l3, &mut path, ldepth);
+            ctx.class(mix(idx, 0xC3B));
+            ctx.nontrivial += 1;
+        })
+        .isolated(),
+    );
+
     p.rule = "(1) model: for every geometry of the model space x 7 built-in + 14 custom kernels (sharp, lanczos4, sum|w| = 4..1e6, zero-mean, negative, NaN, 1e300, denormal) the real tables are read through the hook and window bounds, the clip-table index range for ALL 8-bit contents, accumulator ranges and the SIMD precision dispatch are checked (memory safety unconditionally, panic freedom under sum|w| < 4); (2) API sweep in isolated children with guard pages behind every image buffer and every small-alignment heap block: sizes (0..S)^4 x 30 algorithms incl. wild kernels and SuperSampling multiplicity 0..255 x valid and invalid crop alphabets x rotating pixel types, back-ends and containers; alpha/mapper/conversion operations; the public view methods with arbitrary integer and float arguments (negative, NaN, inf, near u32::MAX) on 5 view kinds; (3) every Resizer history of the C09 alphabet up to the depth with fenced, misaligned scratch buffers. Verdict: Ok or a documented Err; no signal, no abort, no panic (panics allowed only for kernels outside the head-room, where memory safety is still required)".into();
     p.bounds = json!({"S": smax - 1, "history_depth": depth, "model_pairs": pairs.len(), "filters": filters.len()});
     p.assumptions = vec![
